@@ -221,6 +221,34 @@ def r2(ctx, p):
         if len(fa) != 1:
             raise AnalysisBroken('C14: probe does not assign `found` exactly once')
         atoms = conj(probe, kids(fa[0])[1])
+        if not any(a[0] == 'eq' and set(a[1:]) == {'entry.key', 'key'} for a in atoms):
+            # another spelling of the same conjunction (a negated disjunction, a reference to the slot): the normaliser's atoms
+            from rules.norm import Norm as _Nh, Unknown as _Uh
+            nh_ = _Nh(probe, keep=('entry', 'key'))
+
+            def spread(e_, truth_):
+                e0 = nh_.strip(e_)
+                while e0 is not None and e0['k'] in ('ParenExpr',) and kids(e0):
+                    e0 = nh_.strip(kids(e0)[0])
+                if e0['k'] == 'UnaryOperator' and e0.get('op') == '!':
+                    return spread(kids(e0)[0], not truth_)
+                if e0['k'] == 'BinaryOperator' and ((e0.get('op') == '&&' and truth_) or (e0.get('op') == '||' and not truth_)):
+                    return spread(kids(e0)[0], truth_) + spread(kids(e0)[1], truth_)
+                return [nh_.atom(e0, truth_)]
+            try:
+                na_ = spread(kids(fa[0])[1], True)
+            except _Uh:
+                na_ = None
+            if na_ is not None:
+                conv = []
+                for a in na_:
+                    if a[0] == 'truthy':
+                        conv.append(('ne' if a[2] else 'eq', a[1], 0))
+                    elif a[0] == 'in' and isinstance(a[2], frozenset) and len(a[2]) == 1:
+                        conv.append(('eq', a[1], next(iter(a[2]))))
+                    else:
+                        conv.append(a)
+                atoms = conv
         slot = [x for x in probe.all_nodes() if x['k'] == 'VarDecl' and x.get('name') == 'entry']
         slot_e = cn(probe, kids(slot[0])[0]) if slot and kids(slot[0]) else ''
         key_eq = any(a[0] == 'eq' and set(a[1:]) == {'entry.key', 'key'} for a in atoms)
